@@ -317,6 +317,7 @@ class Interp:
         self.events = []
         self.depth = 0
         self.cur_line = 0
+        self.prefix_hooks = [(k[:-1], v) for k, v in self.hooks.items() if k.endswith("*")]
         self.bounded = set()    # symbols assumed far smaller in magnitude than DBL_MAX
         self.positive = set()   # symbols assumed strictly positive (weights, scales)
         self.subs = []          # linear equalities learnt on this path: (variable, replacement polynomial)
@@ -660,7 +661,13 @@ class Interp:
         elif k in ("CaseStmt", "DefaultStmt"):
             self.ex(n.get("sub"), env)
         elif k == "CXXTryStmt":
-            self.ex(n.get("try"), env)
+            try:
+                self.ex(n.get("try"), env)
+            except Thrown:
+                hs = n.get("handlers") or []
+                if not hs:
+                    raise
+                self.ex(hs[0].get("body"), env)
         else:
             self.ev(n, env)
 
@@ -1091,6 +1098,11 @@ class Interp:
                 else:
                     raise Unsupported("std::map constructor argument %r" % (lst,))
             return m
+        if cname.startswith("std::basic_string") or cname.startswith("std::__cxx11::basic_string"):
+            if not args:
+                return ""
+            v = self.ev(args[0], env)
+            return v
         if cname.startswith("std::function"):
             return self.ev(args[0], env) if args else None
         if cname.startswith("std::pair"):
@@ -1237,6 +1249,11 @@ class Interp:
                 return self.call_closure(fv, [self.bind_ref(a, env) for a in ch[1:]])
             raise Unsupported("unresolved call at line %s" % n.get("l"))
         hook = self.hooks.get(cname)
+        if hook is None and self.prefix_hooks:
+            for pfx, h in self.prefix_hooks:
+                if cname.startswith(pfx):
+                    hook = h
+                    break
         if hook is not None:
             return hook(self, n, env)
         # ---- assertions
@@ -1532,7 +1549,7 @@ class Interp:
         if nm == "signbit":
             v = self.num(self.ev(args[0], env))
             if is_sym(v):
-                raise Unsupported("signbit of symbolic value")
+                return self.sign(v) < 0      # (a symbolic gap is never a signed zero)
             return v < 0
         if nm in ("isnan", "isinf"):
             return False
